@@ -24,6 +24,24 @@ def run(chk):
         reqs.append("addbase 0 P %s P %s 0 0" % (f, enc_s("s://u@h:8/a/b?q"))); reqs.append("removebase 0 P %s P %s 0 0" % (enc_s("s://u@h:8/a/c/d"), f))
         reqs.append("equals P %s P %s" % (f, sub[(len(reqs) * 7) % len(sub)]))
         for k in (1, 2, 3): reqs.append("normalize 63 0 P %s %d 0" % (f, k))
+    # texts of equal length that differ only in the LAST character of one component (a comparison that looks at bytes
+    # instead of characters, or at a prefix only, agrees on the char build and not on the wchar_t build)
+    def bump_last(f):
+        d = dec(f) or []
+        outs = []
+        for i in range(len(d) - 1, -1, -1):
+            if (97 <= d[i] <= 121) or (48 <= d[i] <= 56):
+                e = list(d); e[i] += 1; outs.append(enc(e))
+                if len(outs) >= 3: break
+        return outs
+    for f in sub[: (200 if q else 3000)]:
+        for g in bump_last(f):
+            reqs.append("equals P %s P %s" % (f, g)); reqs.append("equals P %s P %s" % (g, f))
+            reqs.append("removebase 0 P %s P %s 0 0" % (f, g)); reqs.append("addbase 1 P %s P %s 0 0" % (f, g))
+    for a, b in (("s://hostname/alpha/beta/gamma", "s://hostname/alpha/beta/gammb"), ("scheme://h/a", "schemf://h/a"), ("s://user@h/a", "s://uses@h/a"), ("s://h:8080/a", "s://h:8081/a"),
+                 ("s://[v1.abcdefgh]/a", "s://[v1.abcdefgi]/a"), ("s://h/a?querystring", "s://h/a?querystrinh"), ("s://h/a#fragmentxx", "s://h/a#fragmentxy"), ("s://hostname/v1/users/list", "s://hostnamf/v2/userz/list")):
+        for x, y in ((a, b), (b, a)):
+            reqs.append("equals P %s P %s" % (enc_s(x), enc_s(y))); reqs.append("removebase 0 P %s P %s 0 0" % (enc_s(x), enc_s(y))); reqs.append("addbase 1 P %s P %s 0 0" % (enc_s(x), enc_s(y)))
     reqs += c07.gen_histories(chk, mdl, 800 if q else 20000)
     esc, unesc = c16.gen_cases(chk)
     reqs += rng.sample(esc, min(len(esc), 3000 if q else 60000)) + rng.sample(unesc, min(len(unesc), 3000 if q else 60000))
